@@ -113,7 +113,7 @@ func VH16a_prefix() {
 		verif.Reach("too-long")
 		verif.Assert(msg == nil, "C16/prefix/nothing-delivered-when-too-long")
 		verif.Assert(r.reads == nprefix, "C16/prefix/no-read-after-oversize-prefix")
-		verif.Assert(a1-a0 <= 16, "C16/prefix/no-allocation-for-oversize")
+		verif.AssertVM(a1-a0 <= 16, "C16/prefix/no-allocation-for-oversize")
 	} else {
 		verif.Reach("in-limit")
 		// stream ended right after the prefix
@@ -125,7 +125,7 @@ func VH16a_prefix() {
 		} else {
 			verif.Assert(err != nil, "C16/prefix/truncated-stream-is-error")
 			verif.Assert(msg == nil, "C16/prefix/nothing-delivered-on-truncation")
-			verif.Assert(a1-a0 <= int(sz)+65536+64, "C16/prefix/allocation-bounded-by-announced-size")
+			verif.AssertVM(a1-a0 <= int(sz)+65536+64, "C16/prefix/allocation-bounded-by-announced-size")
 			last := r.readLens[len(r.readLens)-1]
 			verif.Assert(int64(last) == sz, "C16/prefix/reads-exactly-announced-size")
 		}
